@@ -192,7 +192,7 @@ fn main() {
                 real: REAL,
                 stub: STUB,
                 assumptions: &["for plain read-only, calls admitted before the flag was set are exempt (the statement speaks of queued calls)"],
-                required_probes: &["late_call_rejected", "runs_with_overlapping_calls", "poisoned_by_cancellation", "queued_call_at_readonly_transition"],
+                required_probes: &["late_call_rejected", "runs_with_overlapping_calls", "poisoned_by_cancellation", "queued_call_at_readonly_transition", "cancellation_with_companion"],
                 required_faults: &["cancellation"],
             },
             vec![
